@@ -4,8 +4,8 @@ import RawPanelVerif.Spec.PanelOut
 
 `readLine o l` classifies one line:
 * `grammar effs`  — `l` is derivable in the grammar and denotes `effs`;
-* `nonGrammar`    — the keyword / key name of `l` is not part of the grammar (also: blank line, `key=` without value):
-                    no effect;
+* `nonGrammar`    — the keyword / key name of `l` is not part of the grammar (also: blank line, `key=` without value,
+                    an `HWC#…=Word` line whose kind word is not one of the seven): no effect;
 * `outside`       — a grammar keyword with arguments that do not parse (or a string containing LF, which is not a line):
                     outside the domain of C04 (covered by C06 only).
 
@@ -14,8 +14,10 @@ import RawPanelVerif.Spec.PanelOut
 Grammar (panel → system):
 ```
 flow     ping | ack | nack | BSY | RDY | list
-event    HWC#num[.num]=Down|Up|Press        edge ∈ {0,1,2,4,8,16}; Press = Down then Up
-         HWC#num=(Enc|Abs|Speed|Raw):int    Enc, Speed signed 32-bit; Abs, Raw unsigned 32-bit
+event    HWC#num[.num]=Down|Up|Press             edge ∈ {0,1,2,4,8,16}; Press = Down then Up
+         HWC#num[.num]=(Enc|Abs|Speed|Raw):int   Enc, Speed signed 32-bit; Abs, Raw unsigned 32-bit; the edge suffix of a
+                                                 value event carries no information (value events have no edge)
+         HWC#…=Word[:…] with any other Word      not part of the grammar: no effect
 map      map=num:num
 info     key=value, value non-empty; per key: text | num | word | list | payload | SysStat record
 register (Mem|Shift|State)[A-Z0-9]*=num | Flag#digits*=num   (flag set iff > 0, empty id = 0)
@@ -67,9 +69,22 @@ def readIdEdge (s : Bytes) : Option (Nat × Option Nat) :=
     | _, _ => none
   | _ => none
 
+/-- the seven event kind words -/
+def kindWords : List Bytes :=
+  [asc "Down", asc "Up", asc "Press", asc "Enc", asc "Abs", asc "Speed", asc "Raw"]
+
+/-- the kind word of the right-hand side of an event line: everything before the first `:` -/
+def kindOf (rhs : Bytes) : Bytes := match splitOn 58 rhs with | k :: _ => k | [] => []
+
+/-- `HWC#` lines.  A kind word that is not one of the seven is not part of the grammar (no effect).  A value event
+(`Enc|Abs|Speed|Raw`) may carry an edge suffix like the binary ones (the property quantifies over all seven kinds "with
+and without edge suffix"); value events have no edge — the suffix carries no information and the line denotes the same
+event as without it. -/
 def readEvent (rest : Bytes) : LineClass :=
   match splitOn 61 rest with
   | [lhs, rhs] =>
+    if kindOf rhs ∉ kindWords then .nonGrammar
+    else
     match readIdEdge lhs with
     | none => .outside
     | some (id, edge) =>
@@ -77,7 +92,6 @@ def readEvent (rest : Bytes) : LineClass :=
       if rhs = asc "Down" then .grammar [.event .binary id ed true 0]
       else if rhs = asc "Up" then .grammar [.event .binary id ed false 0]
       else if rhs = asc "Press" then .grammar [.event .binary id ed true 0, .event .binary id ed false 0]
-      else if edge.isSome then .outside
       else match splitOn 58 rhs with
         | [k, v] =>
           match readInt v with
@@ -101,7 +115,20 @@ def readMap (rest : Bytes) : LineClass :=
   | _ => .outside
 
 /-! ### `;`-lists: items separated by `;`, surrounding white space insignificant, empty items ignored -/
-def readItems (v : Bytes) : List Bytes := ((splitOn 59 v).map trimSpace).filter (fun x => x ≠ [])
+
+/-- `ItemsOf pieces items`: `items` are, in order, the pieces with their surrounding white space removed, the pieces that
+are empty afterwards left out (relational reading of a `;`-list; functional: `Lemmas/OutItems.lean`) -/
+inductive ItemsOf : List Bytes → List Bytes → Prop
+  | nil : ItemsOf [] []
+  | skip {p : Bytes} {ps items : List Bytes} : trimSpace p = [] → ItemsOf ps items → ItemsOf (p :: ps) items
+  | keep {p : Bytes} {ps items : List Bytes} : trimSpace p ≠ [] → ItemsOf ps items → ItemsOf (p :: ps) (trimSpace p :: items)
+
+/-- executable reading, piece by piece -/
+def itemsOfPieces : List Bytes → List Bytes
+  | [] => []
+  | p :: ps => if trimSpace p = [] then itemsOfPieces ps else trimSpace p :: itemsOfPieces ps
+
+def readItems (v : Bytes) : List Bytes := itemsOfPieces (splitOn 59 v)
 
 /-! ### SysStat record -/
 
@@ -181,7 +208,7 @@ def readInfoOther (o : OutOracle) (key v : Bytes) : LineClass :=
 /-- `key=v`, `key` a grammar key, `v` non-empty -/
 def readInfo (o : OutOracle) (key v : Bytes) : LineClass :=
   if key ∈ textKeys then .grammar [.info key (.text v)]
-  else if key ∈ payloadKeys then .grammar (payloadEff key v)
+  else if key ∈ payloadKeys then .grammar (if key = asc "_panelTopology_svgbase" then svgEff v else payloadEff key v)
   else if key ∈ numKeys then ofNum v (fun n => [.info key (.num n)])
   else if key ∈ num0Keys then ofNum v (numEff0 key)
   else readInfoOther o key v
